@@ -3,6 +3,9 @@ from .. import observe
 from ..gen import taintgen
 
 
+CUT_SINKS = ("call-arg1", "kwcallee-cut", "receiver-cut", "varargs-cut", "methodarg-cut")
+
+
 def case_list(quick, max_chain):
     """[(chain, source_kind, sink_kind, placement, layout)] — the exhaustive product at the tier's bound."""
     cases = []
@@ -11,14 +14,16 @@ def case_list(quick, max_chain):
             cases.append((chain, "call", "call", placement, "one"))
     for chain in taintgen.chains(1, quick):
         for sk, kk in (("call", "method"), ("method", "call"), ("method", "method"), ("param", "call"), ("param", "method"),
-                       ("call", "call-arg1")):
+                       ("call", "call-arg1"), ("call", "receiver"), ("method", "receiver")):
+            # (no receiver-cut kind: an unknown method called with a tainted argument may store it into its receiver, so even a
+            #  flow-insensitive reading lets the receiver depend on the argument - demanding silence there would exceed C11)
             for placement in (("top", "func") if sk != "param" else ("func",)):
                 cases.append((chain, sk, kk, placement, "one"))
         for sk, kk in (("call", "call"), ("method", "method")):
             for placement in ("top", "func"):
                 cases.append((chain, sk, kk, placement, "two"))
         for sk, kk in (("helper-early", "call"), ("helper-twice", "call"), ("call", "kwcallee"), ("helper-twice", "kwcallee"),
-                       ("call", "kwcallee-cut")):
+                       ("call", "kwcallee-cut"), ("call", "varargs-cut"), ("call", "methodarg-cut")):
             for placement in ("top", "func"):
                 cases.append((chain, sk, kk, placement, "one"))
     return cases
@@ -39,7 +44,7 @@ def run_program(case, source_rules=None, sink_rules=None):
     res["truth"] = truth
     res["other_hits"] = sorted(h for h in hits if h != (one["S"], one["K"]))
     res["S"], res["K"] = prog["S"], prog["K"]
-    res["kind"] = prog["kind"] if kk not in ("call-arg1", "kwcallee-cut") else "cut"
+    res["kind"] = prog["kind"] if kk not in CUT_SINKS else "cut"
     res["feats"] = sorted(prog["feats"])
     res["source"] = prog["main"]
     res.pop("_lian", None)
